@@ -1648,7 +1648,7 @@ func (vc *VC) frameGoals(c *Contract, h *Heap) [][2]string {
 	a0 := vc.get(vc.entryHeap, "$alloc")
 	var out [][2]string
 	for _, comp := range sortedKeys(vc.compSortSet()) {
-		if comp == "$alloc" || strings.HasPrefix(comp, "Gcalls_") || strings.HasPrefix(comp, "Ghash_") || strings.HasPrefix(comp, "Gres_") || strings.HasPrefix(comp, "Gcnt_") || comp == "Gerr_n" {
+		if comp == "$alloc" || strings.HasPrefix(comp, "Gcalls_") || strings.HasPrefix(comp, "Ghash_") || strings.HasPrefix(comp, "Gres_") || strings.HasPrefix(comp, "Garg_") || strings.HasPrefix(comp, "Gcnt_") || comp == "Gerr_n" {
 			continue // ghost state is outside every frame
 		}
 		cur := vc.get(h, comp)
